@@ -530,9 +530,55 @@ func (cm *codecModel) describeDecoded(v ssa.Value, ex *explorer, st *pstate, fr 
 	case *ssa.BinOp:
 		// (b & mask) >> k etc. on the flags byte: handled structurally
 		return "flag"
+	case *ssa.Extract:
+		if call, ok := x.Tuple.(*ssa.Call); ok {
+			if d, ok := cm.describeHelperResult(call, x.Index, ex, st, fr); ok {
+				return d
+			}
+		}
+	}
+	if call, ok := v.(*ssa.Call); ok {
+		if d, ok := cm.describeHelperResult(call, 0, ex, st, fr); ok {
+			return d
+		}
 	}
 	_ = v0
 	return "?" + exprStr(v)
+}
+
+// describeHelperResult: result k of a decoding helper of the codec packages that is handed the decoder's own buffer
+// unsliced: described by the helper's return expressions (constant results of its error paths aside), which must agree.
+func (cm *codecModel) describeHelperResult(call *ssa.Call, k int, ex *explorer, st *pstate, fr *frame) (string, bool) {
+	g := staticCallee(&call.Call)
+	if g == nil || g.Blocks == nil {
+		return "", false
+	}
+	if p := fnPkgPath(g); p != pkPackets1 && p != pkPackets {
+		return "", false
+	}
+	for ai, a := range call.Call.Args {
+		if ai < len(g.Params) && isByteSlice(g.Params[ai].Type()) {
+			if p, ok := a.(*ssa.Parameter); !ok || !isByteSlice(p.Type()) {
+				return "", false
+			}
+		}
+	}
+	out := ""
+	for _, b := range g.Blocks {
+		ret, ok := b.Instrs[len(b.Instrs)-1].(*ssa.Return)
+		if !ok || k >= len(ret.Results) {
+			continue
+		}
+		if _, isC := stripConv(ret.Results[k]).(*ssa.Const); isC {
+			continue
+		}
+		d := cm.describeDecoded(ret.Results[k], ex, st, fr)
+		if out != "" && d != out {
+			return "", false
+		}
+		out = d
+	}
+	return out, out != ""
 }
 
 // ---------------------------------------------------------------------------
